@@ -4,18 +4,26 @@ HOOKS = dict(
     guard="cfg(kani) / cfg(folo_verif)",
     enable="Kani sets cfg(kani) itself (cargo kani); native replays build with RUSTFLAGS='--cfg folo_verif' and FOLO_VERIF_DIR=/verif",
     baseline_off_cmd="cd /repo && cargo nextest run --workspace --no-fail-fast --tool-config-file pb:/w/lib/nextest.toml --profile pb --test-threads 8 --offline || cargo test --workspace --no-fail-fast --offline",
-    source_commits=["c13769c", "f72257d", "bd85f32", "a238489", "f66556c"],
+    source_commits=["c13769c", "f72257d", "bd85f32", "a238489", "f66556c", "364127b"],
     add_only=True,
 )
 
 ENGINES = [
-    dict(name="kani", path="lib/kani_engine.py", serves_properties=["C01", "C02", "C07", "C16", "C18"],
+    dict(name="kani", path="lib/kani_engine.py", serves_properties=["C01", "C02", "C07", "C11", "C16", "C18"],
          kind_free_text="Kani 0.68 / CBMC 6.11 / CaDiCaL bounded model checking of #[kani::proof] harnesses over the real crates "
                         "(path dependency or in-crate include hook); symbolic inputs and symbolic callback programs; "
                         "counterexamples replayed natively (dev, release, Miri) before a violation is reported"),
 ]
 
 CLAIMED = {
+    "C11": dict(
+        engine="kani",
+        technique="bounded model checking (Kani/CBMC SAT) of the real affinity-mask code (bit position arithmetic for every u32 id, set semantics and width-independent equality)",
+        design_ref="DESIGN.md §4 C11",
+        text="Only the affinity-mask clause of C11 is decided: BitPosition::{of,bit,processor_id} round-trips for EVERY u32 processor id (word index, single bit, id reconstructed); a 1-word and a 2-word CpuMask with a solver-chosen id inserted into each: membership observed at an arbitrary id equals the inserted set, equality holds iff the sets are equal whatever the widths, width never changes; enumeration of a one-word mask with a solver-chosen word (<= 2 bits) yields ascending ids, one per bit. "
+             "The Linux inventory parsing and the cpulist codec are outside the claim (they do not fit a solver-based encoding here). Bounded, not a proof.",
+        note="Trusts Kani/CBMC/CaDiCaL and smallvec (resize modelled). Partial claim: the mask only.",
+    ),
     "C16": dict(
         engine="kani",
         technique="bounded model checking (Kani/CBMC SAT) of the real observation-bag, publication and merge code from arbitrary prior states",
@@ -66,7 +74,7 @@ CLAIMED = {
 
 PENDING = "check under construction in this build phase (see DESIGN.md); not claimed until its check is committed"
 NOT_APPLICABLE = {
-    "C05": PENDING, "C06": PENDING, "C08": PENDING, "C11": PENDING,
+    "C05": PENDING, "C06": PENDING, "C08": PENDING,
     "C19": PENDING, "C20": PENDING,
     "C03": "wrapper pools (Arc<Mutex<..>>, Rc<RefCell<..>> + type-erased removers) exhaust 20-28 GB in CBMC even for {insert; drop handle} at capacity 2 (DESIGN.md P22); the Send/Sync clause is a trait-solver question, not an SMT query over the code",
     "C04": "the panic half needs unwinding (absent in Kani; catch_unwind even ICEs it) and the re-entrancy half needs the wrapper-pool shapes that do not fit (P22)",
